@@ -7,6 +7,7 @@ import PicoSVG.Proofs.PathSim
 import PicoSVG.Proofs.PathSimAbs
 import PicoSVG.Proofs.PathSimShorthand
 import PicoSVG.Proofs.PathSimRel
+import PicoSVG.Proofs.PathSimMove
 import PicoSVG.Spec.Shapes
 
 set_option linter.unusedSectionVars false
@@ -78,6 +79,15 @@ theorem relative_preserves_curve (tol : α) (hns : ∀ p q : Pt α, (p == q) = f
     (cmds out : List (Cmd α)) (segs : List (Spec.Seg α))
     (h : relativeCore tol cmds = .ok out) (hi : Spec.interp cmds = some segs) : Spec.interp out = some segs :=
   PathSim.relativeCore_interp tol hns cmds out segs h hi
+
+/-- C09 (move): `move(dx, dy)` translates the curve — for a path that starts with a moveto, the drawn segments of the
+    result are those of the input, each shifted by (dx, dy); relative commands are left alone, absolute ones shifted, a
+    leading `m` counts as absolute -/
+theorem move_translates_curve (dx dy : α) (c0 : Char) (a0 : List α) (rest out : List (Cmd α))
+    (segs : List (Spec.Seg α)) (hc0 : c0 = 'M' ∨ c0 = 'm')
+    (h : move dx dy ((c0, a0) :: rest) = .ok out) (hi : Spec.interp ((c0, a0) :: rest) = some segs) :
+    Spec.interp out = some (segs.map (PathSim.shiftSeg dx dy)) :=
+  PathSim.move_interp dx dy c0 a0 rest out segs hc0 h hi
 
 /-- any other rewrite built on the walk inherits the result as soon as its callback is sound command by command -/
 theorem sound_callback_preserves_curve (cb : Callback α) (hcb : PathSim.CbSound cb) (cmds out : List (Cmd α))
